@@ -427,7 +427,7 @@ static bool ran(int g, Res& res, long out_elems) {
 }
 
 static long g_sizes_max = 2;       // matrix dimensions 0..g_sizes_max
-static long g_vec_max   = 4;       // vector lengths 0..g_vec_max
+static long g_vec_max   = 9;       // vector lengths 0..g_vec_max
 static bool g_thorough  = false;
 struct SectionCount { std::string name; long n; };
 static std::vector<SectionCount> g_sections;
@@ -812,8 +812,10 @@ void grid_v1(V1Form const& f, Gen gen, Ref ref, Call call) {
 }
 // data with an integer Euclidean norm, all parts >= 1
 template<class T> T gen_nrm(long i, long n, long) {
-	static long const re[5][4] = {{0, 0, 0, 0}, {3, 0, 0, 0}, {3, 4, 0, 0}, {2, 3, 6, 0}, {2, 4, 5, 6}};                                              // norms 3, 5, 7, 9
-	static long const cr[5][4] = {{0, 0, 0, 0}, {3, 0, 0, 0}, {1, 2, 0, 0}, {1, 1, 2, 0}, {1, 1, 1, 1}}, ci[5][4] = {{0, 0, 0, 0}, {4, 0, 0, 0}, {2, 4, 0, 0}, {1, 1, 1, 0}, {1, 1, 1, 3}};  // norms 5, 5, 3, 4
+	static long const re[10][9] = {{0}, {3}, {3, 4}, {2, 3, 6}, {2, 4, 5, 6}, {1, 1, 1, 2, 3}, {1, 1, 1, 1, 2, 1}, {1, 1, 1, 1, 1, 2, 4}, {1, 1, 1, 1, 1, 1, 1, 3}, {1, 1, 1, 1, 1, 1, 1, 3, 3}};   // norms 3, 5, 7, 9, 4, 3, 5, 4, 5
+	static long const cr[10][9] = {{0}, {3}, {1, 2}, {1, 1, 2}, {1, 1, 1, 1}, {1, 1, 1, 1, 1}, {1, 1, 1, 1, 1, 1}, {1, 1, 1, 1, 1, 1, 1}, {1, 1, 1, 1, 1, 1, 1, 1}, {1, 1, 1, 1, 1, 1, 1, 1, 1}};
+	static long const ci[10][9] = {{0}, {4}, {2, 4}, {1, 1, 1}, {1, 1, 1, 3}, {1, 1, 1, 1, 4}, {1, 1, 1, 1, 1, 5}, {1, 1, 1, 1, 1, 1, 6}, {1, 1, 1, 1, 1, 1, 1, 7}, {1, 1, 1, 1, 1, 1, 1, 1, 8}};   // norms 5, 5, 3, 4, 5, 6, 7, 8, 9
+	static_assert(sizeof(re)/sizeof(re[0]) == 10, "vector lengths 0..9");
 	if constexpr(is_cx<T>{}) { return mk<T>(cr[n][i], ci[n][i]); } else { return mk<T>(re[n][i], 0); }
 }
 template<class T> T gen_plain(long i, long, long) { return genX<T>(i); }
@@ -1067,10 +1069,11 @@ template<class T> void section_trsm() {
 }
 
 // ================================================================================================ main
+template<class T> void level1_sections() { section_dot<T>(); section_axpy<T>(); section_axpy_new<T>(); section_copy_swap<T>(); section_copy_new<T>(); section_level1_single<T>(); }
 template<class T> void all_sections() {
 	section_gemm<T>();
 	section_gemv<T>();
-	section_dot<T>(); section_axpy<T>(); section_axpy_new<T>(); section_copy_swap<T>(); section_copy_new<T>(); section_level1_single<T>();
+	level1_sections<T>();
 	section_rk<T>(); section_herk_new<T>();
 	section_trsm<T>();
 }
@@ -1079,7 +1082,7 @@ int main(int argc, char** argv) {
 	mc::Args args(argc, argv);
 	g_thorough = args.get("tier", "quick") == "thorough";
 	g_sizes_max = args.geti("maxsize", g_thorough ? 3 : 2);
-	g_vec_max   = args.geti("maxvec", 4);
+	g_vec_max   = args.geti("maxvec", 9);   // past the unrolling widths (4,5,6,7,8) of reference and optimised level-1 kernels
 	mc::set_deadline(static_cast<double>(args.geti("deadline", 3000)));
 	D.init();
 	D.nshards = std::max(1L, args.geti("nshards", 1)); D.shard = args.geti("shard", 0) % D.nshards; D.batch = std::max(1L, args.geti("batch", 256));
@@ -1094,6 +1097,7 @@ int main(int argc, char** argv) {
 
 	all_sections<double>(); all_sections<std::complex<double>>();
 	if(g_thorough || D.mode == Driver::REPLAY) { all_sections<float>(); all_sections<std::complex<float>>(); }
+	else { level1_sections<float>(); level1_sections<std::complex<float>>(); }   // quick: the single-precision level-1 entry points (separate code paths in core.hpp) with the full vector-length range
 	D.finish_child();
 
 	if(D.mode == Driver::REPLAY) {
@@ -1111,7 +1115,7 @@ int main(int argc, char** argv) {
 	for(auto const& kv : mc::R.viol) { mc::R.outcome(kv.first.substr(kv.first.rfind('|') + 1)); }
 	if(D.shard == 0) {
 		mc::R.add("grid_configurations", D.gidx);
-		mc::R.note(std::string("tier ") + (g_thorough ? "thorough" : "quick") + ": matrix dimensions 0.." + std::to_string(g_sizes_max) + ", vector lengths 0.." + std::to_string(g_vec_max) + ", element types " + (g_thorough ? "double, complex<double>, float, complex<float>" : "double, complex<double>") + "; scalars {0,1,2} (+ {i, 1+2i} for complex); every combination is executed");
+		mc::R.note(std::string("tier ") + (g_thorough ? "thorough" : "quick") + ": matrix dimensions 0.." + std::to_string(g_sizes_max) + ", vector lengths 0.." + std::to_string(g_vec_max) + ", element types " + (g_thorough ? "double, complex<double>, float, complex<float>" : "double, complex<double> (+ float, complex<float> for the level-1 operations)") + "; scalars {0,1,2} (+ {i, 1+2i} for complex); every combination is executed");
 		mc::R.note("not instantiable on this tree (compile probes, hard errors, therefore excluded at compile time): every gemm form for complex<float> (core.hpp:530 `*beta != 0.0`); blas::iamax(x) in assertion-enabled builds (iamax.hpp:27 `assert(! offset(x))`; the iterator forms are used); "
 			"value forms of asum for views (asum.hpp:48); x ^ y (swap operator); y += alpha*x (axpy.hpp:156 returns a view by value); syrk and real herk with an lvalue output view (syrk.hpp:35 returns by value; an rvalue view is passed); "
 			"trsm with A and B both conjugated (trsm.hpp:107 `bbase`); herk(A, C) and herk(A) for complex<float> (alpha = 1.0 is a double); conjugated operands of gemv's x/y, axpy, scal, copy, swap, nrm2, asum, syrk");
